@@ -242,6 +242,12 @@ V("BL5-data-size-other-predicate", "C08", "BL5",
    "        for obj in self.objects:\n            if hasattr(obj, 'data'):\n                data_size += object_data_size(obj.data_type, obj.data)\n"))
 V("BL6-index-data-size-zero", "C08", "BL6",
   ("writer.py", "    def _data_size(self):\n        data_size = 0\n", "    def _data_size(self):\n        data_size = 0\n        if self.is_index_file:\n            return 0\n"))
+V("BL6-index-written-to-data-stream", "C08", "BL6",
+  ("writer.py", "            segment.write(self._index_file)\n", "            segment.write(self._file)\n"))
+V("BL6-index-twin-without-flag", "C08", "BL6",
+  ("writer.py", "            segment = TdmsSegment(objects, is_index_file=True, version=self._tdms_version)\n", "            segment = TdmsSegment(objects, version=self._tdms_version)\n"))
+V("BL6-index-metadata-differs", "C08", "BL6",
+  ("writer.py", "        metadata = self.metadata()\n", "        metadata = [] if self.is_index_file else self.metadata()\n"))
 V("BL6-index-different-version", "C08", "BL6",
   ("writer.py", "            segment = TdmsSegment(objects, is_index_file=True, version=self._tdms_version)\n", "            segment = TdmsSegment(objects, is_index_file=True)\n"))
 V("PO1-drop-sort", "C08", "PO1",
